@@ -1,6 +1,9 @@
 package drive
 
-import "math/rand"
+import (
+	"fmt"
+	"math/rand"
+)
 
 func fund(acct, asset string, n, now int) Op {
 	return Op{K: "create", L: "l1", Now: now, Ps: []Posting{{S: "world", D: acct, As: asset, N: n}}}
@@ -118,5 +121,24 @@ func ConcFamilies(seed int64, scale string) []ConcCase {
 	add("import/vs-two-writes", nil, []Op{fund("alice", "USD", bal, 1)}, imp, onL2(fund("carol", "USD", 2, 3)), onL2(fund("bob", "EUR/2", 1, 3)))
 	out[len(out)-1].Extra = []CaseLedger{{Name: "l2", Bucket: "b2"}}
 	out[len(out)-1].Target = "l2"
+	// --- C34: the async block builder racing with writers whose log ids and commits may be reordered;
+	// the builder runs once more, to completion, after everybody returned (Quiesce)
+	async := map[string]string{"HASH_LOGS": "ASYNC"}
+	blocks := func(size int) Op { return Op{K: "blocks", L: "l1", ID: size} }
+	for _, size := range []int{1, 2, 100} {
+		tag := fmt.Sprintf("size%d", size)
+		add("blocks/disjoint-rows-"+tag, async, []Op{fund("alice", "USD", bal, 1)},
+			fund("bob", "USD", 1, 3), fund("orders:1", "EUR/2", 2, 3), blocks(size))
+		out[len(out)-1].Quiesce = size
+		add("blocks/shared-row-"+tag, async, []Op{fund("alice", "USD", bal, 1)},
+			fund("bob", "USD", 1, 3), fund("orders:1", "USD", 2, 3), blocks(size))
+		out[len(out)-1].Quiesce = size
+	}
+	add("blocks/two-builders", async, []Op{fund("alice", "USD", bal, 1), fund("bob", "USD", 1, 2)},
+		fund("orders:1", "EUR/2", 2, 3), blocks(1), blocks(1))
+	out[len(out)-1].Quiesce = 1
+	add("blocks/meta-writers", async, []Op{fund("alice", "USD", bal, 1)},
+		Op{K: "acmeta", L: "l1", Addr: "alice", Meta: map[string]string{"k": "v"}}, fund("bob", "EUR/2", 1, 3), blocks(2))
+	out[len(out)-1].Quiesce = 2
 	return out
 }
